@@ -588,4 +588,70 @@ Section Twin.
         pose proof (md_unapply_range _ _ _ _ E2) as M2. destruct (static_find _ _ _ bx1 (proj1 M2) Fbx1) as (bx2 & Fbx2).
         exists bx2. split; [exact Fbx2|]. rewrite (proj1 (md_nobody_failed _ _ _ _ _ M2 Fbx1 Fbx2)). exact Hfx1.
   Qed.
+
+  Lemma twin_apply : forall s ia, twin s ia kb ->
+      exists s' ok, apply pstate ccmd cexec cunexec s fork c = Ok (s', ok) /\
+                    (ok = true -> twin s' ia 0) /\ (ok = false -> twin s' ia kb).
+  Proof.
+    intros s ia T. pose proof T as (F & G & _). pose proof G as ((W & K) & _ & _).
+    pose proof (fr_static _ _ F) as Sst. pose proof (fun y => hgt_static _ _ y Sst) as HS.
+    destruct kb as [|m] eqn:Ekb.
+    { cbn in Hf2. exists s, true. unfold apply. rewrite Hf2, N.eqb_refl. split; [reflexivity|]. split; [intros _; exact T|discriminate]. }
+    rewrite <- Ekb in *.
+    unfold apply.
+    assert (Hab : N.eqb fork c = false).
+    { apply N.eqb_neq. intro Heq. pose proof hgt_fork_c as Hh. rewrite Heq in Hh. lia. }
+    rewrite Hab.
+    destruct (twin_find s fork F) as (ba & Fa & _ & Ha'). { rewrite Hf2. apply up_c_found. lia. }
+    destruct (twin_find s c F (ex_intro _ _ Hc)) as (bb & Fb & _ & Hb'). rewrite Fa, Fb.
+    destruct (is_failed ccmd bb) eqn:Hfb.
+    { exists s, false. split; [reflexivity|]. split; [discriminate|intros _; exact T]. }
+    assert (Hlt : negb (Z.ltb (b_h ccmd ba) (b_h ccmd bb)) = false).
+    { apply negb_false_iff. apply Z.ltb_lt. rewrite Ha', Hb', hgt_fork_c. lia. }
+    rewrite Hlt.
+    assert (Hn' : Z.to_nat (b_h ccmd bb - b_h ccmd ba) = kb) by (rewrite Ha', Hb', hgt_fork_c; lia). rewrite Hn'.
+    assert (Hfound : forall i, (i < kb)%nat -> exists e, cfind (cores s) (up (cores s) i c) = Some e).
+    { intros i Hi. rewrite (up_static _ _ i c Sst). destruct (up_c_found i ltac:(lia)) as (e & He).
+      pose proof (Sst (up l0 i c)) as Sx. unfold sfind in Sx. rewrite He in Sx. destruct (cfind (cores s) (up l0 i c)); [eexists; reflexivity|discriminate]. }
+    rewrite (path_up_seq s kb c Hfound).
+    assert (Hrev : rev (map (fun i => up (cores s) i c) (seq 0 kb)) = path_from kb).
+    { unfold path_from. f_equal. apply map_ext. intros i. apply up_static. exact Sst. }
+    rewrite Hrev. rewrite Ekb, path_from_S, <- Ekb.
+    assert (Hm : m = (kb - 1)%nat) by lia.
+    destruct (twin_find s (up l0 m c) F (up_c_found m ltac:(lia))) as (bx & Fx & Px & _). rewrite Fx.
+    assert (Hpx : N.eqb (b_par ccmd bx) fork = true).
+    { apply N.eqb_eq. rewrite Px, parent_up_c, Hf2. f_equal. lia. }
+    rewrite Hpx. rewrite <- path_from_S. replace (S m) with kb by lia.
+    (* nothing on the candidate branch above the fork is failed *)
+    assert (Cc : cfind (cores s) c = Some (core bb)) by (apply find_cfind; exact Fb).
+    assert (Hnf : forall i, (i < kb)%nat -> exists b, bfind (blocks _ _ s) (up l0 i c) = Some b /\ is_failed _ b = false).
+    { intros i Hi. rewrite <- (up_static _ _ i c Sst). apply (anc_valid s c bb W K Fb Hfb).
+      unfold dep. rewrite (fr_root _ _ F), !HS. unfold dep in Kb. lia. }
+    destruct (twin_apply_path kb s ia (Nat.le_refl _) T Hnf) as (s' & ok & E' & Ht' & Hf').
+    exists s', ok. split; [exact E'|]. split; [exact Ht'|]. intros Hok. exact (proj1 (Hf' Hok)).
+  Qed.
+
+  (* the ends of the twin walks are single-chain states *)
+  Lemma twin_alone_B : forall s ib, twin s ka ib -> alone s (up l0 ib c).
+  Proof.
+    intros s ib (F & G & _ & Hib & HA & HB & Hn). pose proof G as ((W & _) & _ & _).
+    pose proof (fr_static _ _ F) as Sst. pose proof (fun y => hgt_static _ _ y Sst) as HS.
+    apply alone_unfold. split; [exact W|]. split.
+    - destruct (Nat.eq_dec ib kb) as [->|n]; [rewrite <- Hf2, Hf1; replace ka with (ka + 0)%nat by lia; apply HA|apply HB; lia].
+    - rewrite (fr_root _ _ F), !HS, Hn, hgt_c by lia. pose proof hgt_fork_t. pose proof hgt_fork_c. lia.
+  Qed.
+  Lemma twin_alone_A : forall s ia, twin s ia kb -> alone s (up l0 ia t).
+  Proof.
+    intros s ia (F & G & Hia & _ & HA & _ & Hn). pose proof G as ((W & _) & _ & _).
+    pose proof (fr_static _ _ F) as Sst. pose proof (fun y => hgt_static _ _ y Sst) as HS.
+    apply alone_unfold. split; [exact W|]. split.
+    - replace ia with (ia + 0)%nat by lia. apply HA.
+    - rewrite (fr_root _ _ F), !HS, Hn, hgt_t by lia. replace (kb - kb)%nat with O by lia. lia.
+  Qed.
+  Lemma twin_init : twin s0 0 kb.
+  Proof.
+    pose proof G0 as (Q & C & K & T & U). pose proof Q as (W & Ta & Hn).
+    split; [apply frame_refl; exact W|]. split; [split; [split; assumption|split; assumption]|]. split; [lia|]. split; [lia|].
+    split; [intros k; apply chain_up_active; exact Q|]. split; [intros i Hi; lia|]. replace (kb - kb)%nat with O by lia. lia.
+  Qed.
 End Twin.
